@@ -4,7 +4,7 @@ import random
 from . import core, judge, resolver_replay
 from . import tlc as T
 
-ALL_SCHEMES = (1, 2, 3, 4, 5, 6, 7, 8)
+ALL_SCHEMES = (1, 2, 3, 4, 5, 6, 7, 8, 9)
 
 
 def cfg(name, MaxN, MaxComps, queries, schemes=ALL_SCHEMES, Wild=True, variants=resolver_replay.VARIANTS):
@@ -12,14 +12,17 @@ def cfg(name, MaxN, MaxComps, queries, schemes=ALL_SCHEMES, Wild=True, variants=
 
 
 CONFIGS = {
-    ("C07", "quick"): [cfg("get-t3", 3, 2, ("get",)), cfg("get-t4", 4, 2, ("get",), Wild=False, variants=("node/", "anyid"))],
+    ("C07", "quick"): [cfg("get-t3", 3, 2, ("get",), variants=resolver_replay.VARIANTS + ("adv:zerolen", "adv:alwayseq")),
+                       cfg("get-t4", 4, 2, ("get",), Wild=False, variants=("node/", "anyid"))],
     ("C07", "thorough"): [cfg("get-t4w", 4, 2, ("get",)), cfg("get-t3c3", 3, 3, ("get",), Wild=False), cfg("get-t5", 5, 2, ("get",), schemes=(1, 2, 5), Wild=False, variants=("node/",))],
     ("C17", "quick"): [cfg("glob-t3", 3, 2, ("glob",), variants=("node/", "adv:alwayseq", "adv:nevereq", "adv:falsy", "adv:unhashable", "adv:tripwire")),
                        cfg("get-t3", 3, 2, ("get",), variants=("node/", "adv:alwayseq", "adv:zerolen", "adv:tripwire"))],
     ("C17", "thorough"): [cfg("glob-t3", 3, 2, ("glob",), variants=("node/", "adv:alwayseq", "adv:nevereq", "adv:falsy", "adv:zerolen", "adv:unhashable", "adv:container", "adv:ordering", "adv:tripwire")),
                           cfg("get-t3", 3, 2, ("get",), variants=("node/", "adv:alwayseq", "adv:nevereq", "adv:falsy", "adv:zerolen", "adv:unhashable", "adv:container", "adv:ordering", "adv:tripwire"))],
-    ("C08", "quick"): [cfg("glob-t3", 3, 2, ("glob",)), cfg("glob-t4", 4, 2, ("glob",), schemes=(1, 3, 5), variants=("node/",))],
-    ("C08", "thorough"): [cfg("glob-t4a", 4, 2, ("glob",)), cfg("glob-t3c3", 3, 3, ("glob",), variants=("node/", "mixin::"))],
+    ("C08", "quick"): [cfg("glob-t3", 3, 2, ("glob",), variants=resolver_replay.VARIANTS + ("adv:alwayseq", "adv:falsy")),
+                       cfg("glob-t4", 4, 2, ("glob",), schemes=(1, 3, 5), variants=("node/",))],
+    ("C08", "thorough"): [cfg("glob-t4a", 4, 2, ("glob",), variants=resolver_replay.VARIANTS + ("adv:alwayseq", "adv:falsy")),
+                          cfg("glob-t3c3", 3, 3, ("glob",), variants=("node/", "mixin::"))],
 }
 
 CHECKS = dict(invariants=("Lem_Get", "Lem_Match"), properties=("Thm_Get", "Thm_Glob"))
